@@ -10,6 +10,7 @@ import (
 	"sort"
 	"strings"
 	"sync"
+	"time"
 
 	"golang.org/x/tools/go/packages"
 	"golang.org/x/tools/go/ssa"
@@ -38,6 +39,7 @@ type World struct {
 	LoadSeconds        float64
 	ZnFiles            []string // source files of the Zn packages that were loaded
 	Tier               int
+	pathDeadline       time.Time // set by Explore: exploration deadline + 60 s
 	tabMu              sync.Mutex
 	allFuncs           map[string]*ssa.Function
 }
